@@ -3,7 +3,7 @@
     and assumption printing.  Model: Sketch/SketchModel.v (bit-level, tied to
     src/common/frequency_sketch.rs by the `sketch` lock-step correspondence and by the
     regenerated constants of Gen/Consts.v).  Proofs: Sketch/SketchProofs.v. *)
-From MM Require Import Sketch.SketchSpec Sketch.SketchProofs Unsync.UInvDefs Unsync.UInv.
+From MM Require Import Sketch.SketchSpec Sketch.SketchProofs Unsync.UInvDefs Unsync.UInv Sync.SModel Sync.SProvenance.
 
 (** (1) The estimate of any key is at most 15 — any sketch state at all. *)
 Theorem C14_bounded : forall sk h, frequency sk h <= 15.
@@ -11,7 +11,7 @@ Proof. exact frequency_le_15. Qed.
 
 (** (2) A freshly sized sketch (what the caches build) is well formed, for every
     capacity incl. 0 and non powers of two; its table is never empty. *)
-Theorem C14_fresh_wf : forall cap, sk_wf (fresh cap) /\ 0 < sk_tlen (fresh cap).
+Theorem C14_fresh_wf : forall cap, sk_wf (SketchSpec.fresh cap) /\ 0 < sk_tlen (SketchSpec.fresh cap).
 Proof. exact fresh_wf. Qed.
 
 (** (3) Table indices stay inside the table. *)
@@ -34,16 +34,16 @@ Proof. exact increment_ok. Qed.
     aging step). *)
 Theorem C14_never_underestimates :
   forall cap hs h sk,
-    incr_all (fresh cap) hs = Ok sk ->
-    ref_count (fresh cap) h 0 hs <= frequency sk h.
+    incr_all (SketchSpec.fresh cap) hs = Ok sk ->
+    ref_count (SketchSpec.fresh cap) h 0 hs <= frequency sk h.
 Proof. exact freq_ge_ref_count. Qed.
 
 (** (6) ... and equals it when some counter of [h] is shared with no other recorded key. *)
 Theorem C14_exact_without_collision :
   forall cap hs h sk,
-    has_private_counter (fresh cap) h hs ->
-    incr_all (fresh cap) hs = Ok sk ->
-    frequency sk h = ref_count (fresh cap) h 0 hs.
+    has_private_counter (SketchSpec.fresh cap) h hs ->
+    incr_all (SketchSpec.fresh cap) hs = Ok sk ->
+    frequency sk h = ref_count (SketchSpec.fresh cap) h 0 hs.
 Proof. exact freq_eq_ref_count. Qed.
 
 (** (7) Recording any key never lowers any estimate, except through an aging step. *)
@@ -95,11 +95,37 @@ Theorem C14_unsync_invalidate_all_never_records : forall s,
   u_sk (u_invalidate_all s) = u_sk s /\ u_skon (u_invalidate_all s) = u_skon s.
 Proof. exact u_invalidate_all_sketch. Qed.
 
+(** (10) Only get calls are ever recorded — concurrent cache (sequential regime; conditional on the
+    step returning Ok, which C08 shows): the read-op queue grows only in get, by at most one op
+    carrying the hash of the looked-up key (hit or miss); every other operation, and maintenance,
+    only CONSUMES queued reads, and the sketch evolves exactly by one [increment] per consumed
+    read, in queue order, possibly being enabled ([ensure_capacity]) on the way; contains_key and
+    iteration do not touch the state at all *)
+Theorem C14_sync_get_records_once : forall c r k r' out,
+  sstep c r (SGet k) = Ok (r', out) ->
+  exists n, (s_rq (sr_state r') = drop n (s_rq (sr_state r)) \/
+             exists o, s_rq (sr_state r') = drop n (s_rq (sr_state r)) ++ [o] /\ rop_hash o = sc_hash c k) /\
+            sk_evolves (s_sk (sr_state r)) (s_skon (sr_state r)) (rop_hash <$> take n (s_rq (sr_state r)))
+                       (s_sk (sr_state r')) (s_skon (sr_state r')).
+Proof. exact sstep_get_records_once. Qed.
+Theorem C14_sync_others_record_nothing : forall c r o r' out,
+  (forall k, o <> SGet k) -> sstep c r o = Ok (r', out) -> reads_consumed (sr_state r) (sr_state r').
+Proof. exact sstep_records_nothing. Qed.
+Theorem C14_sync_maintenance_only_consumes : forall c s now s', s_sync c s now = Ok s' -> reads_consumed s s'.
+Proof. exact s_sync_reads_consumed. Qed.
+Theorem C14_sync_contains_iter_touch_nothing : forall c r o r' out,
+  (o = SIter \/ exists k, o = SContains k) -> sstep c r o = Ok (r', out) -> r' = r.
+Proof. exact contains_iter_touch_nothing. Qed.
+
 Check C14_bounded : forall sk h, frequency sk h <= 15.
 Check C14_never_underestimates :
-  forall cap hs h sk, incr_all (fresh cap) hs = Ok sk ->
-    ref_count (fresh cap) h 0 hs <= frequency sk h.
+  forall cap hs h sk, incr_all (SketchSpec.fresh cap) hs = Ok sk ->
+    ref_count (SketchSpec.fresh cap) h 0 hs <= frequency sk h.
 
+Print Assumptions C14_sync_get_records_once.
+Print Assumptions C14_sync_others_record_nothing.
+Print Assumptions C14_sync_maintenance_only_consumes.
+Print Assumptions C14_sync_contains_iter_touch_nothing.
 Print Assumptions C14_unsync_get_records_once.
 Print Assumptions C14_unsync_insert_never_records.
 Print Assumptions C14_unsync_contains_never_records.
